@@ -214,7 +214,15 @@ structure Params where
   hi : Rat
   deriving Repr
 
-/-! ## 5. Reference pipeline (PS3.3) -/
+/-! ## 5. Reference pipeline (PS3.3)
+
+Stage order, the window functions, table clipping and the real-world value map are the standard's.  Two conventions
+are the LIBRARY's (documented behaviour of `LUT.get_scaled_lut_data` / `get_inverted_lut_data`), copied here and in the
+harness oracle alike, so the folding theorems about them show internal consistency, not conformance: a VOI LUT's output
+is scaled from the table's own [min, max] entry to `voi_output_range` (`refVoi .lut`), and an inversion without VOI
+stage over a modality LUT reflects about `min + max` of the table entries (`rangeSum .lut`) - PS3.3 C.11.2 / C.11.6
+speak of the full output range of the descriptor's bit depth.  The real-world-map range check is per value here; the
+code tests `frame.min()` / `frame.max()`, i.e. refuses the whole frame when one value is outside. -/
 
 /-- C.11.2.1.2.1 -/
 def refLinear (c w lo hi x : Rat) : Rat :=
@@ -574,17 +582,30 @@ def firstHit {α} : List (Option α × Bool) → Option (α × Bool)
 
 def Placed.find {α} (pl : Placed α) (f : Nat) : Option (α × Bool) := firstHit (pl.candidates f)
 
-/-- the three searched kinds of an image -/
+/-- VOI information of ONE dataset (the image itself, or the item of FrameVOILUTSequence in a functional group): a VOI
+LUT sequence and / or window values; the LUT sequence is used when both are there -/
+def voiItem {l w} (luts : Option l) (win : Option w) : Option (Sum l w) :=
+  match luts with
+  | some x => some (.inl x)
+  | none => win.map .inr
+
+/-- VOI information at the three places, each a (VOI LUT sequence, window values) pair -/
+def Placed.ofVoi {l w} (image shared : Option l × Option w) (perFrame : List (Option l × Option w)) : Placed (Sum l w) :=
+  ⟨voiItem image.1 image.2, voiItem shared.1 shared.2, perFrame.map fun x => voiItem x.1 x.2⟩
+
+/-- the three searched kinds of an image: real-world value maps, rescale parameters, and VOI information (`ω`: window
+values or a VOI LUT sequence, `Placed.ofVoi`).  A Modality LUT sequence exists at the image level only (PS3.3 has no
+functional group for it); it takes the place of the rescale search and does not affect `applies_to_all_frames`. -/
 structure Meta (ρ μ ω : Type) where
   rwvm : Placed ρ
   rescale : Placed μ
-  window : Placed ω
+  voi : Placed ω
 
 /-- what `__init__` finds for frame `f` and its `applies_to_all_frames` -/
 structure Found (ρ μ ω : Type) where
   rwvm : Option ρ
   rescale : Option μ
-  window : Option ω
+  voi : Option ω
   all : Bool
 
 def discover {ρ μ ω} (im : Meta ρ μ ω) (useRw useMod useVoi : Bool) (f : Nat) : Found ρ μ ω :=
@@ -593,7 +614,7 @@ def discover {ρ μ ω} (im : Meta ρ μ ω) (useRw useMod useVoi : Bool) (f : N
   | some (r, sh) => ⟨some r, none, none, sh⟩
   | none =>
     let rs := if useMod then im.rescale.find f else none
-    let wn := if useVoi then im.window.find f else none
+    let wn := if useVoi then im.voi.find f else none
     ⟨none, rs.map (·.1), wn.map (·.1),
       (match rs with | some (_, sh) => sh | none => true) && (match wn with | some (_, sh) => sh | none => true)⟩
 
